@@ -4,7 +4,7 @@ cd "$(dirname "$0")/.." || exit 2
 [ -n "$VP_RUN_REPO" ] && export VERIF_REPO="$VP_RUN_REPO"
 for p in ${THOROUGH_PROPS:-C06 C09 C12 C17 C18 C19 C20 C02 C10 C07 C05 C13 C15 C11 C14 C03 C01 C04 C08}; do
   t0=$(date +%s)
-  ./check $p --tier thorough > thorough_$p.log 2>&1
+  ./check $p --tier thorough ${VERIF_JOBS:+--jobs $VERIF_JOBS} > thorough_$p.log 2>&1
   rc=$?
   t1=$(date +%s)
   echo "$p rc=$rc wall=$((t1-t0))s $(grep 'tier=thorough' thorough_$p.log | cut -c1-220)"
